@@ -6,9 +6,12 @@ CONSTANTS
   ActNames = {"addToHead", "a"}
   NShapes = 2
   Wide = FALSE
+  BindFocus = FALSE
   Trace = TRUE
 CONSTRAINT Bound
 INVARIANT SelfConsistent
 INVARIANT WireWellTyped
 INVARIANT BindAtomic
+INVARIANT ExactlyOnceInOrder
+INVARIANT SyncAfterEarlier
 INVARIANT FreeLaws
